@@ -143,7 +143,7 @@ def _validate_group(args):
     nq, nr, rk, pwc, pws, retries, tapdu, tseg, tapp, app_delay, delay_by = key
     c = consts(nq, nr, rk, pwc, pws, retries, tapdu, tseg, tapp, app_delay, delay_by, flags=flags,
                maxdrop=99, maxdup=99, maxdelay=99, maxshrink=99)
-    tf = os.path.join(wd, "traces_%s.ndjson" % abs(hash(key)))
+    tf = os.path.join(wd, "traces_%s_%d.ndjson" % (abs(hash(key)), traces[0]["tid"]))
     with open(tf, "w") as f:
         for t in traces:
             f.write(json.dumps({"tid": t["tid"], "evs": t["evs"], "feasible": bool(t["cfg"].get("feasible")),
@@ -161,20 +161,22 @@ def validate(chk, traces, flags, on_verdict, label=""):
         groups.setdefault(group_key(t), []).append(t)
     wd = tlc.workdir("trtsm")
     try:
-        jobs = [(k, flags, v, wd) for k, v in groups.items()]
+        # (large groups go to TLC in pieces: the JSON reader holds a whole file in memory)
+        CH = 3000
+        jobs = [(k, flags, v[i:i + CH], wd) for k, v in groups.items() for i in range(0, len(v), CH)]
         with cf.ThreadPoolExecutor(max_workers=6) as ex:
             results = list(ex.map(_validate_group, jobs))
     finally:
         shutil.rmtree(wd, ignore_errors=True)
     bytid = {t["tid"]: t for t in traces}
     n = 0
-    for key, res in results:
+    for (key, res), job in zip(results, jobs):
         if res["error_kind"]:
             tlc.machinery_failure("trace validation failed for group %r: %s\n%s" % (key, res["error"], res["output"][-3000:]))
         vs = tlc.printed_values(res["output"])
-        if len(vs) != len(groups[key]):
+        if len(vs) != len(job[2]):
             tlc.machinery_failure("trace validation returned %d verdicts for %d traces (group %r)\n%s" % (
-                len(vs), len(groups[key]), key, res["output"][-3000:]))
+                len(vs), len(job[2]), key, res["output"][-3000:]))
         chk.extra["trace_validation_states"] = chk.extra.get("trace_validation_states", 0) + res["distinct"]
         for v in vs:
             n += 1
